@@ -39,6 +39,7 @@ TNext ==
     \/ Is("ring") /\ NewRing(E.entries) /\ last'.r = E.r /\ last'.depth = E.depth
     \/ TPush
     \/ Is("submit") /\ E.ok /\ Submit(E.r) /\ last'.n = E.n
+    \/ Is("submit") /\ ~E.ok /\ SubmitFail(E.r)
     \/ Is("sync") /\ SyncCq(E.r) /\ last'.n = E.n
     \/ TCqe
     \/ Is("none") /\ PopNone(E.r)
@@ -49,7 +50,7 @@ TNext ==
     \/ Is("shimw") /\ ShimWrite(E.f, E.off, E.bytes) /\ fs' = E.files
     \/ Is("crash") /\ Crash /\ fs' = E.files
     \/ Is("end") /\ End /\ fs = E.files
-    \/ Is("readable") /\ P_Readable(E.r, E.ok) /\ (E.ok => CqCount(E.r) > 0)
+    \/ Is("readable") /\ P_Readable(E.r, E.ok, E.grace) /\ (E.ok => CqCount(E.r) > 0)
                       /\ last' = [a |-> "readable"] /\ UNCHANGED ivars
     \/ /\ l <= Len(Rec) /\ Rec[l].ev \in {"note"}
        /\ l' = l + 1 /\ UNCHANGED vars
